@@ -140,15 +140,44 @@ func vhHashManipulations() {
 	c1 := vBaseContent("ab", "is", 5, nil, true, t1, t3, nil)
 	c2 := c1
 	v := 1
-	switch vChoose("edit", 4) {
+	// every field of the manipulations block: added, and changed in value
+	changed := vChoose("changed", 2) == 1
+	v0 := 3
+	oidA := pkix.AlgorithmIdentifier{Algorithm: asn1.ObjectIdentifier{1, 2, 3}}
+	oidB := pkix.AlgorithmIdentifier{Algorithm: asn1.ObjectIdentifier{1, 2, 4}}
+	bitsA := asn1.BitString{Bytes: []byte{1}, BitLength: 8}
+	bitsB := asn1.BitString{Bytes: []byte{2}, BitLength: 8}
+	switch vChoose("edit", 6) {
 	case 0:
+		if changed {
+			c1.Manipulations.Version = &v0
+		}
 		c2.Manipulations.Version = &v
 	case 1:
-		c2.Manipulations.SignatureValue = &asn1.BitString{Bytes: []byte{1}, BitLength: 8}
+		if changed {
+			c1.Manipulations.SignatureAlgorithm = &oidA
+		}
+		c2.Manipulations.SignatureAlgorithm = &oidB
 	case 2:
-		c2.Manipulations.TbsSignature = &pkix.AlgorithmIdentifier{Algorithm: asn1.ObjectIdentifier{1, 2, 3}}
+		if changed {
+			c1.Manipulations.SignatureValue = &bitsA
+		}
+		c2.Manipulations.SignatureValue = &bitsB
+	case 3:
+		if changed {
+			c1.Manipulations.TbsSignature = &oidA
+		}
+		c2.Manipulations.TbsSignature = &oidB
+	case 4:
+		if changed {
+			c1.Manipulations.TbsPublicKeyAlgorithm = &oidA
+		}
+		c2.Manipulations.TbsPublicKeyAlgorithm = &oidB
 	default:
-		c2.Manipulations.TbsPublicKey = &asn1.BitString{Bytes: []byte{2}, BitLength: 8}
+		if changed {
+			c1.Manipulations.TbsPublicKey = &bitsA
+		}
+		c2.Manipulations.TbsPublicKey = &bitsB
 	}
 	vReach("edited")
 	vAssert(!vBytesEq(c1.HashSum(), c2.HashSum()), "a manipulation edit leaves the configuration hash unchanged")
